@@ -256,15 +256,14 @@ static std::string classify_crash(int status, const std::string &err)
 	{
 		size_t ls = err.rfind('\n', p);
 		std::string pre = err.substr(ls == std::string::npos ? 0 : ls + 1, p - (ls == std::string::npos ? 0 : ls + 1));
-		// prog: file:line: func: Assertion
-		std::vector<std::string> parts;
-		std::istringstream ss(pre);
-		std::string w;
-		while (ss >> w)
-			parts.push_back(w);
-		std::string fn = parts.size() >= 2 ? parts[parts.size() - 1] : "?";
-		if (!fn.empty() && fn.back() == ':')
-			fn.pop_back();
+		// prog: file:line: signature: Assertion  -> name of the function in the signature
+		std::string fn = "?";
+		size_t paren = pre.find('(');
+		if (paren != std::string::npos)
+		{
+			size_t b = pre.find_last_of(" *", paren);
+			fn = pre.substr(b == std::string::npos ? 0 : b + 1, paren - (b == std::string::npos ? 0 : b + 1));
+		}
 		return sanitize_cls("crash:assert@" + fn);
 	}
 	if (err.find("json-c aborts with error") != std::string::npos)
